@@ -150,7 +150,7 @@ Fixpoint tv_stmt (ps : pystmt) (rs : rstmt) {struct ps} : bool :=
       match assoc (tv_outs E) p with Some w' => w' =? w | None => false end && (width_in (tv_ins E ++ tv_outs E) p =? w) &&
       net_is (tv_nets E) i p w false && tv_rhs w e re
   | PSPut p e, RNba (RLId i w) re =>
-      match tv_kind E with KPropagate => true | _ => false end &&
+      match tv_kind E with KPropagate => true | _ => false end && match assoc (tv_ins E) p with None => true | Some _ => false end &&
       match assoc (tv_outs E) p with Some w' => w' =? w | None => false end && (width_in (tv_ins E ++ tv_outs E) p =? w) &&
       net_is (tv_nets E) i p w false && tv_rhs w e re
   | _, _ => false
